@@ -23,7 +23,7 @@ ASSUMPTIONS = ['only events posted after start_at returned and with no stop are 
                'a run that exhausts its step budget is inconclusive for C04 (counted, never a pass and never a violation)']
 PROBES = ['post_during_consumer_step', 'overflow_displaced_event']
 PLAN = {
-  'quick': {'strata': {'no-overflow': 2500, 'overflow': 1500}, 'wall_s': 150, 'chunk': 50, 'min_conclusive': 800},
+  'quick': {'strata': {'no-overflow': 2500, 'overflow': 1500}, 'wall_s': 300, 'chunk': 50, 'min_conclusive': 800},
   'thorough': {'strata': {'no-overflow': 70000, 'overflow': 40000}, 'wall_s': 900, 'chunk': 100, 'min_conclusive': 8000},
 }
 
